@@ -82,7 +82,6 @@ var c07NotWitness = []string{
 	"underscore in exponent",            // undecided offline (DESIGN 9.4)
 	"stream does not begin with a version marker",
 	"malformed version marker",
-	"local year",                        // UTC fields in range but local year 0 / 10000: undecided
 	"minutes out of range",              // binary offsets beyond +-23:59: not a calendar field; undecided
 	"version marker inside a container", // E0 as a wrapper with a bad body is covered by the wrapper rules
 }
@@ -357,6 +356,11 @@ func c07BinTokens() [][]byte {
 	ts(0x81, 0x81, 0x81, 0x80, 0x80, 0x80, 0xCA, 0x02, 0xDF, 0xDC, 0x1C, 0x35) // 12345678901 d-10
 	ts(0x81, 0x81, 0x81, 0x80, 0x80, 0x80, 0xCA, 0x02, 0x54, 0x0B, 0xE4, 0x00) // 10^10 d-10
 	ts(0x81, 0x81, 0x81, 0x80, 0x80, 0x80, 0xCB, 0x17, 0x48, 0x76, 0xE8, 0x01) // 10^11+1 d-11
+	// UTC fields in range, but the offset carries the local date off the calendar
+	// (local year 10000 / 0); and the same through a fraction that rounds up
+	add(0x67, 0xBC, 0x4E, 0x8F, 0x8C, 0x9F, 0x97, 0x9E)       // 9999-12-31T23:30 UTC, offset +60
+	add(0x66, 0xFC, 0x81, 0x81, 0x81, 0x80, 0x9E)             // 0001-01-01T00:30 UTC, offset -60
+	add(0x68, 0xBC, 0x4E, 0x8F, 0x8C, 0x9F, 0x97, 0x9E, 0x80) // the same at second precision
 	// annotation wrappers
 	add(0xE0) // lone E0 followed by whatever comes next
 	add(0xE1, 0x81)
